@@ -32,6 +32,7 @@ func CheckC04(run *evid.Run) {
 		o2.Bursts = i%3 == 0 // concurrent bursts before the (sequential) appends that are checked
 		if i%5 == 2 {
 			o2.Shapes = []string{"manyheads"}
+			o2.BigFanout = true
 		}
 		h := hx.Gen(run.Seed, i, o2)
 		x := hx.NewExec(h)
